@@ -341,8 +341,14 @@ def crash_points(ctx, dirpath, sizes, kill):
                             try:
                                 s.conn.set_progress_handler(None, 1)
                                 s.add(the_batch())
-                                got_retry = {r.qualname for r in s.filter("m", "fx_", 100)}
+                                # seen through an INDEPENDENT connection, before the writer reads anything back: a batch that
+                                # add() returned for is committed, not parked in a transaction the failed write left open
+                                _, names_retry = count_rows(path)
+                                got_retry = {x for x in names_retry if x.startswith("fx_")}
                                 if got_retry != {f"fx_{i}" for i in range(size)}:
+                                    retry_lost = sorted({f"fx_{i}" for i in range(size)} - got_retry)
+                                got_retry = {r.qualname for r in s.filter("m", "fx_", 100)}
+                                if retry_lost is None and got_retry != {f"fx_{i}" for i in range(size)}:
                                     retry_lost = sorted({f"fx_{i}" for i in range(size)} - got_retry)
                             except Exception as e:
                                 retry_lost = repr(e)
